@@ -113,8 +113,13 @@ Section WithEnv.
     | AAddRecord t k v w o f => vb_add_record unbech t k v w o f
     end.
 
+  (** sdk.Coins.IsValid / IsAllPositive, reduced to: non-empty, positive amounts, denominations of 3..128 bytes
+      (the SDK's denomination pattern [a-zA-Z][a-zA-Z0-9/:._-]{2,127}; the character class is not modelled) *)
   Definition coins_valid (cs : coins) : bool :=
-    match cs with [] => false | _ => forallb (fun c => (0 <? snd c)%N) cs end.
+    match cs with
+    | [] => false
+    | _ => forallb (fun c => (0 <? snd c)%N && (3 <=? length (fst c))%nat && (length (fst c) <=? 128)%nat) cs
+    end.
 
   Definition vb_did (m : did_msg) : outcome unit :=
     match m with
